@@ -270,6 +270,7 @@ def run(ctx):
     lines = []; metas = []
     for g, mk in pl:
         ctx.tlc_stats(g.r, "%s: %s/%s%s" % (g.label, g.module, g.cfg, (" -simulate num=%d seed=%d" % (g.sim, ctx.seed)) if g.sim else ""))
+        ctx.cov["tlc_runs"][-1]["packets_emitted"] = len(g.cases)
         n0 = len(lines)
         for c in g.cases:
             for ln, meta in mk(c):
@@ -319,7 +320,7 @@ def run(ctx):
                 fn, field = f["span"].split("/", 1)
                 note("%s:SPAN(%s):%s" % (fn, field, meta["shape"]), ln, "build %s\ncase %s\nanswer %s" % (bname, ln, f), bname)
             try:
-                v = cmp_case(meta, f)
+                v = None if "span" in f else cmp_case(meta, f)
             except (KeyError, ValueError) as e:
                 raise common.Infra("unparsable answer for %s: %s (%s)" % (ln, f, e))
             if v:
